@@ -11,11 +11,11 @@ def add(c):
     CONFIGS[c['name']] = c
 
 # main: nothrow-move, copyable element; stateful non-propagating allocator; N >= 1; C++20; NDEBUG
-add(_c('main', facts={'MOVE_NOEXCEPT': 1, 'COPYABLE': 1, 'RELOCATE_WITH_MOVE': 1}))
+add(_c('main', facts={'MOVE_NOEXCEPT': 1, 'COPYABLE': 1, 'RELOCATE_WITH_MOVE': 1, 'POCCA': 0, 'POCMA': 0, 'POCS': 0, 'ALWAYS_EQUAL': 0}))
 # throwing move + copyable element: the strong guarantee relocates by copy
 add(_c('tmove', defines=['NDEBUG', 'VT_MOVE_NOEXCEPT=0'],
        model_defines={'MOVE_MAY_THROW': 1, 'ASSIGN_MOVE_MAY_THROW': 1, 'SWAP_MAY_THROW': 1},
-       facts={'MOVE_NOEXCEPT': 0, 'COPYABLE': 1, 'RELOCATE_WITH_MOVE': 0}))
+       facts={'MOVE_NOEXCEPT': 0, 'COPYABLE': 1, 'RELOCATE_WITH_MOVE': 0, 'POCCA': 0, 'POCMA': 0, 'POCS': 0, 'ALWAYS_EQUAL': 0}))
 
 def cfg_defines(cfg):
     d = ['-DCFG_CAP_BOUND=(1u<<30)', '-DCFG_ALLOC_MAX_BOUND=(1ul<<50)']
